@@ -25,6 +25,9 @@ func init() {
 // errLit classifies a path literal with respect to the error value: +1 = establishes EOF-class or nil
 // (the path is not an 'other error' path), 0 = says nothing.
 func errLitExcludesOther(l eng.PathLit, errVal ssa.Value, isClassifier func(*ssa.Function) bool) bool {
+	if l.Truth && isEOFDisjunction(l.Cond, errVal, isClassifier, 0) {
+		return true
+	}
 	switch x := l.Cond.(type) {
 	case *ssa.Call:
 		if f := eng.ResolveCallee(x.Call.Value); f != nil && isClassifier(f) && len(x.Call.Args) >= 1 && x.Call.Args[len(x.Call.Args)-1] == errVal {
@@ -246,6 +249,7 @@ func runC08(c *Ctx) {
 		}
 	}
 	c.R.RequireMin("R08.1", "end-of-input tests on the reader's error", nCl, 1)
+	_ = nVal
 
 	// match: tokenizer error => return Results{}, err first
 	if m := p.Func(v2pkg, "(*Classifier).match"); c.R.Anchor(m != nil, "v2.(*Classifier).match") {
@@ -276,16 +280,16 @@ func runC08(c *Ctx) {
 	}
 	// MatchFrom passes match's results through
 	if mf := p.Func(v2pkg, "(*Classifier).MatchFrom"); c.R.Anchor(mf != nil, "v2.(*Classifier).MatchFrom") {
-		ok, why := passThrough(mf, "match", -1)
+		ok, why := passThrough(mf, p.Func(v2pkg, "(*Classifier).match"), -1)
 		c.R.Check(ok, "R08.1", "MatchFrom returns match's results and error unchanged", p.Pos(mf.Pos()), why, why)
 	}
 	// ---- R08.2 ----------------------------------------------------------------------------
 	if mt := p.Func(v2pkg, "(*Classifier).Match"); c.R.Anchor(mt != nil, "v2.(*Classifier).Match") {
-		ok, why := passThrough(mt, "MatchFrom", 0)
+		ok, why := passThrough(mt, p.Func(v2pkg, "(*Classifier).MatchFrom"), 0)
 		if ok {
 			// argument is bytes.NewReader(in)
 			for _, call := range core.CallsIn(mt) {
-				if cal := call.Common().StaticCallee(); cal != nil && cal.Name() == "MatchFrom" {
+				if cal := call.Common().StaticCallee(); cal != nil && cal == p.Func(v2pkg, "(*Classifier).MatchFrom") {
 					a := call.Common().Args[1]
 					if mi, isMI := a.(*ssa.MakeInterface); isMI {
 						a = mi.X
@@ -314,14 +318,18 @@ func dependsOnValue(v, target ssa.Value, depth int) bool {
 
 // passThrough: fn has exactly one call of `callee` and returns its result(s) unchanged (idx = -1: all
 // results in order; idx >= 0: that single result), with no other call or store.
-func passThrough(fn *ssa.Function, callee string, idx int) (bool, string) {
+func passThrough(fn *ssa.Function, target *ssa.Function, idx int) (bool, string) {
+	if target == nil {
+		return false, "delegation target not found"
+	}
+	callee := target.Name()
 	var the *ssa.Call
 	for _, b := range fn.Blocks {
 		for _, in := range b.Instrs {
 			switch x := in.(type) {
 			case *ssa.Call:
 				cal := x.Call.StaticCallee()
-				if cal != nil && cal.Name() == callee {
+				if cal != nil && cal == target {
 					if the != nil {
 						return false, "more than one call of " + callee
 					}
@@ -439,4 +447,46 @@ func checkDecoderWindow(c *Ctx, p *core.Prog, ts *ssa.Function, read *ssa.Call) 
 			"DecodeRune(buf[i:]) on the read buffer", "the slice given to the decoder is capped (or is another buffer): a multi-byte rune that straddles the window edge is decoded as U+FFFD, so shifting the text by a few bytes changes the tokens")
 	}
 	c.R.RequireMin("R08.5", "rune decode sites", n, 1)
+}
+
+// isEOFDisjunction: v is true only if errVal is io.EOF or io.ErrUnexpectedEOF: a direct comparison, an
+// EOF classifier call, or the boolean phi of a short-circuit `a || b` over such tests (possibly
+// stored in a local variable).
+func isEOFDisjunction(v ssa.Value, errVal ssa.Value, isClassifier func(*ssa.Function) bool, depth int) bool {
+	if depth > 4 {
+		return false
+	}
+	switch x := v.(type) {
+	case *ssa.BinOp:
+		if x.Op != token.EQL {
+			return false
+		}
+		return (x.X == errVal && isEOFSentinel(x.Y)) || (x.Y == errVal && isEOFSentinel(x.X))
+	case *ssa.Call:
+		f := eng.ResolveCallee(x.Call.Value)
+		return f != nil && isClassifier(f) && len(x.Call.Args) >= 1 && x.Call.Args[len(x.Call.Args)-1] == errVal
+	case *ssa.Phi:
+		if !isBool(x.Type()) {
+			return false
+		}
+		for i, e := range x.Edges {
+			if cst, ok := e.(*ssa.Const); ok && cst.Value != nil {
+				if cst.Value.String() == "false" {
+					continue
+				}
+				// const true: the predecessor must have taken the true edge of an EOF test
+				pb := x.Block().Preds[i]
+				ifi, ok := pb.Instrs[len(pb.Instrs)-1].(*ssa.If)
+				if !ok || pb.Succs[0] != x.Block() || !isEOFDisjunction(ifi.Cond, errVal, isClassifier, depth+1) {
+					return false
+				}
+				continue
+			}
+			if !isEOFDisjunction(e, errVal, isClassifier, depth+1) {
+				return false
+			}
+		}
+		return true
+	}
+	return false
 }
